@@ -190,7 +190,7 @@ pub fn drive<C: PCheck>(c: &C, cfg: &Cfg, rep: &mut Report, spec: &StreamSpec, o
         engine::hooks::reset();
         let mut any_nontrivial = false;
         'prog: for hay in &hays {
-            for start in c.starts(hay) {
+            for start in thin_starts(c.starts(hay)) {
                 let h = fnv64(format!("{}|{}|{}", p.hash(), hay, start).as_bytes());
                 match c.case(&prep, hay, start, Some(rep)) {
                     Verdict::Held { nontrivial } => {
